@@ -226,8 +226,9 @@ def read2 (t : Tag) (page : Nat) (s : S2) : Py Bytes × S2 :=
     if b &&& 0xFA = 0 then
       -- NAK: sense again, INVALID_PAGE_ERROR or RECEIVE_ERROR
       match xchg t s'.w [] with
-      | (some _, w') => (.error (.tagCmd 2), { s' with w := w', alive := true })
-      | (none, w') => (.error (.tagCmd (-1)), { s' with w := w', alive := false })
+      -- (repair 607d752: a tag that was activated again has sector 0 selected, `_current_sector = 0`)
+      | (some _, w') => (.error (.tagCmd 2), { s' with w := w', alive := true, sector := 0 })
+      | (none, w') => (.error (.tagCmd (-1)), { s' with w := w', alive := false, sector := 0 })
     else (.error (.tagCmd 3), s')
   | (.ok d, s') => if d.length ≠ 16 then (.error (.tagCmd 3), s') else (.ok d, s')
 
